@@ -49,7 +49,11 @@ def scrub(s):
 
 def canon_exc(x):
     """Canonical rendering of an exception; call ONLY inside the except block."""
-    out = {"cls": type(x).__name__, "msg": scrub(str(x))[:500]}
+    try:
+        text = scrub(str(x))[:500]
+    except RecursionError:
+        text = "<message not printable: value nested too deeply>"
+    out = {"cls": type(x).__name__, "msg": text}
     try:
         from jsonschema.exceptions import RefResolutionError
         if isinstance(x, RefResolutionError):
@@ -64,6 +68,17 @@ def canon_exc(x):
 def materialise(value, world):
     """A fresh copy of an instance; in `decimal_floats` worlds every float arrives as decimal.Decimal
     (what json.loads(..., parse_float=Decimal) gives a caller): numbers are numbers.Number to the library."""
+    if isinstance(value, dict) and list(value) == ["$deep"]:
+        spec = value["$deep"]
+        cur = copy.deepcopy(spec["unit"])
+        for _ in range(spec["n"]):              # iterative: no harness recursion proportional to the depth
+            new = copy.deepcopy(spec["unit"])
+            node = new
+            for key in spec["path"][:-1]:
+                node = node[key]
+            node[spec["path"][-1]] = cur
+            cur = new
+        return cur
     if not world.get("decimal_floats"):
         return copy.deepcopy(value)
     from decimal import Decimal
@@ -199,12 +214,14 @@ class Actor(object):
             box = [1]
 
             def push_scope(*a, **k):
-                box[0] += 1
-                return push(*a, **k)
+                r_ = push(*a, **k)
+                box[0] += 1                 # only counted once it has happened (push may die of stack exhaustion)
+                return r_
 
             def pop_scope(*a, **k):
+                r_ = pop(*a, **k)
                 box[0] -= 1
-                return pop(*a, **k)
+                return r_
             r.push_scope = push_scope
             r.pop_scope = pop_scope
             self._depth = box
